@@ -78,3 +78,5 @@ Proof. vm_compute. reflexivity. Qed.
 (* whole UTF-8 strings, and a truncated one *)
 Example ex_chars_ok : map chars_ok_b [hex_bytes "e3818261f0a0ae9f"; hex_bytes "e381"; hex_bytes "81"; []] = [true; false; false; true].
 Proof. vm_compute. reflexivity. Qed.
+Example ex_hexz : hexz_bytes "01z000302z0004"%string = [1; 0; 0; 0; 2; 0; 0; 0; 0].
+Proof. vm_compute. reflexivity. Qed.
